@@ -47,7 +47,18 @@ func (sb *schemaBuilder) getType(nodeType reflect.Type, forceListEntryNonNull bo
 	}
 
 	if typeName, ok := getScalar(nodeType); ok {
-		return &graphql.NonNull{Type: &graphql.Scalar{Type: typeName}}, nil
+		scalar := &graphql.Scalar{Type: typeName}
+		if nodeType.Kind() == reflect.Slice {
+			// The type is advertised as non-null: a nil []byte is an empty
+			// value, not null.
+			scalar.Unwrapper = func(source interface{}) (interface{}, error) {
+				if v := reflect.ValueOf(source); v.Kind() == reflect.Slice && v.IsNil() {
+					return reflect.MakeSlice(v.Type(), 0, 0).Interface(), nil
+				}
+				return source, nil
+			}
+		}
+		return &graphql.NonNull{Type: scalar}, nil
 	}
 	if nodeType.Kind() == reflect.Ptr {
 		if typeName, ok := getScalar(nodeType.Elem()); ok {
